@@ -293,6 +293,10 @@ def directed_cases(rng):
     out.append(("dims-T-tall", t8(["1e9"], rows=2, cols=1)))
     out.append(("dims-U-wide", t8(["1e9"], rows=1, cols=2, typ="U8")))
     out.append(("dims-zero", t8(["1e9"], rows=0, cols=0)))
+    # finding DC1: a per-column type with no column: zero-bound variable length arrays in parse_matrices
+    out.append(("dims-UE14-no-column", M([("calibrations", Q([M([("name", S("x")), ("type", S("UE14")), ("rows", S("1")), ("columns", S("0")),
+                                                                 ("frequencies", S("1")),
+                                                                 ("data", Q([M([("f", S("1e9"))] + [(nm, Q([Q([])])) for nm in ("um", "ui", "ux", "us", "el")])]))])]))])))
     out.append(("dims-huge-T16", M([("calibrations", Q([M([("name", S("x")), ("type", S("T16")), ("rows", S("70000")), ("columns", S("70000")),
                                                             ("frequencies", S("0")), ("data", Q([]))])]))])))
     out.append(("dims-huge-TE10", M([("calibrations", Q([M([("name", S("x")), ("type", S("TE10")), ("rows", S("65536")), ("columns", S("65536")),
@@ -657,7 +661,7 @@ def run(ctx, standalone=False):
     nv = len(ctx.violations)
     c09_model.tie(ctx, cases, trees, outcome, violate)
     if not coq_ok and len(ctx.violations) == nv:
-        ctx.unproved("Properties_C09cal (load_total, load_ok_wf_partial)", "the Coq development of the loader model no longer compiles",
+        ctx.unproved("Properties_C09cal (load_enoprotoopt_iff_version, load_errors_after_version, load_ok_wf_partial)", "the Coq development of the loader model no longer compiles",
                      "model vs vnacal_load on %d inputs: no disagreement, no ill-formed accepted object" % len(cases))
 
     ctx.log("C09(cal): calibration inputs evaluated")
